@@ -211,6 +211,8 @@ def write_and_read(recipe, name):
     work = os.environ.get("VERIF_WORK") or os.environ.get("TMPDIR") or "/tmp"
     path = os.path.join(work, f"c10_{os.getpid()}_{name}.rtf")
     built = R.build(recipe)
+    with open(path, "wb") as f:          # the path already holds a longer file: nothing of it may survive
+        f.write(b"{\\rtf1 OLD CONTENT \\u20013* }" * 4000)
     with contextlib.redirect_stdout(io.StringIO()):
         built.doc.write_rtf(path)
     with open(path, "rb") as f:
